@@ -14,7 +14,7 @@ for p in props:
     i=p['id']
     if i in claimed:
         c=claimed[i]
-        m['checks'].append({"property_id":i,"quick_cmd":"./bin/dvc check %s --tier quick"%i,"thorough_cmd":"./bin/dvc check %s --tier thorough"%i,
+        m['checks'].append({"property_id":i,"quick_cmd":"./bin/dvc check %s --tier quick"%i,"thorough_cmd":"./bin/dvc check %s --tier thorough && scripts/selftest.sh %s"%(i,i),
           "evidence_file":"/verif/evidence/%s.json"%i,"replay_cmd_template":"./bin/dvc replay {path}","engine":"dvc",
           "level_claimed":{"category":"proof","text":c['text'],"design_ref":"DESIGN.md §4 "+i},
           "level_note":c['note'],"technique":"contract-based deductive verification (WP verification conditions from go/ssa, discharged by SMT)"})
